@@ -10,14 +10,14 @@ import (
 	"bytes"
 	"encoding/json"
 	"fmt"
-	"os/exec"
-	"sync"
-	"syscall"
 	"math/rand"
 	"os"
+	"os/exec"
 	"path/filepath"
 	"sort"
 	"strings"
+	"sync"
+	"syscall"
 	"testing"
 	"time"
 
@@ -45,6 +45,8 @@ type runner struct {
 	step    int
 	crashAt map[int]bool
 	hb      *tv.Batch // hook-level trace for the model binding (nil: not recorded)
+	// anyContent: the files are not the harness's own (crypto/spiffe writes real PEMs): only names are compared
+	anyContent bool
 }
 
 // hookBatch, when non-nil, receives the hook-level trace of every runPlan run while hookBudget lasts.
@@ -124,7 +126,7 @@ func (r *runner) observe() tv.M {
 	for _, e := range ents {
 		names = append(names, e.Name())
 		b, err := os.ReadFile(filepath.Join(dest, e.Name()))
-		if err != nil || string(b) != content(w, e.Name()) {
+		if err != nil || (!r.anyContent && string(b) != content(w, e.Name())) || (r.anyContent && len(b) == 0) {
 			o["foreign"] = true
 		}
 	}
@@ -561,6 +563,37 @@ func TestCheck(t *testing.T) {
 			}
 		}
 	}
+	// environment faults: the removal of the previous version fails inside Write number k (k >= 2)
+	faultRuns := 0
+	if faultSupported() {
+		for _, sq := range seqs {
+			if len(sq) < 2 || len(sq) > 3 || (!ev.Thorough() && len(sq) == 3 && rng.Intn(4) != 0) {
+				continue
+			}
+			for k := 2; k <= len(sq); k++ {
+				p := plan{Sets: sq}
+				runPlanFault(b, p, k)
+				plans = append(plans, p)
+				runs++
+				faultRuns++
+				e.Nontrivial(fmt.Sprint("fault ", k, p))
+			}
+		}
+	}
+	e.Set("removeprev_fault_runs", int64(faultRuns))
+	// crypto/spiffe's use of dir.Write: certificate rotations on a fake clock
+	spiffeWrites := 0
+	for i := 0; i < ev.Pick(3, 20); i++ {
+		_, nw, ok := spiffeRotations(b, ev.Pick(4, 8))
+		plans = append(plans, plan{Sets: [][]string{{"spiffe-rotation"}}})
+		runs++
+		if !ok {
+			e.Inconclusive("crypto/spiffe rotation could not be driven to the end")
+			break
+		}
+		spiffeWrites += nw
+	}
+	e.Set("spiffe_rotation_writes", int64(spiffeWrites))
 	// a reader polling the target continuously while 60 (600) Writes run
 	for i := 0; i < ev.Pick(4, 20); i++ {
 		readerStress(b, ev.Pick(60, 300))
@@ -569,7 +602,7 @@ func TestCheck(t *testing.T) {
 	}
 	e.Set("killed_child_runs", int64(killed))
 	e.Set("evaluations", int64(runs))
-	e.Set("rule", "every case = (sequence of 1..N Write file sets over {∅,{a},{a,b},{b,c},{c}}, set of step points at which the process dies); crash points enumerated exhaustively for one crash (every step point of every Write of every sequence) and for two crashes in the thorough tier (sampled in quick); the filesystem is projected after every step; non-trivial = at least one crash or at least two Writes; distinct by (sets, crash points)")
+	e.Set("rule", "every case = (sequence of 1..N Write file sets over {∅,{a},{a,b},{b,c},{c}}, set of step points at which the process dies); plus (a) Writes during which the removal of the previous version is made to fail (immutable flag), (b) the Writes crypto/spiffe performs over 4 (8) certificate rotations on a fake clock; crash points enumerated exhaustively for one crash (every step point of every Write of every sequence) and for two crashes in the thorough tier (sampled in quick); the filesystem is projected after every step; non-trivial = at least one crash or at least two Writes; distinct by (sets, crash points)")
 	for _, i := range []int{1, len(plans) / 2, len(plans) - 1} {
 		e.Sample(tv.M{"plan": plans[i], "trace": b.TraceStrings(i)})
 	}
